@@ -24,7 +24,7 @@ for p in props:
             "level_note": "bounded symbolic execution of the real SSA; trusted: go/ssa, the symgo interpreter and its stdlib/filesystem models, the SMT solvers, and the per-property idealisations listed in the evidence file's assumptions (DESIGN §8)",
             "technique": tech})
 na = [{"property_id": p['id'], "reason": na_reasons.get(p['id'], "check not built yet (solver-based design in DESIGN.md §5)")} for p in props if p['id'] not in claimed]
-fixes = "fix: commits in /repo: e31b0cb (C19), aa6707b (C06), b2b155f and bd31b89 (C17), 1b8b29f (C03 late duplicate), 8068c86 and 0110d43 (C12), ad51878 (C07), 0e3ae23, 4f9acd7 and 7f36ac5, 9c0c632 (C02), ea8813a and d996ccc (C03/C04), 1644088, 17bfe02, 04699de, 3c2a7eb, 345e430, c714a31, d43b432, 16c81f4, 84f2801 and 82d9a06 (C15), 0f09042 (C06), 3e6c11a (C11). Known findings and fixed entries: /verif/known_findings.json."
+fixes = "fix: commits in /repo: e31b0cb (C19), aa6707b (C06), b2b155f and bd31b89 (C17), 1b8b29f (C03 late duplicate), 8068c86 and 0110d43 (C12), ad51878 (C07), 0e3ae23, 4f9acd7 and 7f36ac5, 9c0c632 (C02), ea8813a and d996ccc (C03/C04), 1644088, 17bfe02, 04699de, 3c2a7eb, 345e430, c714a31, d43b432, 16c81f4, 84f2801 and 82d9a06 (C15), 0f09042 (C06), 3e6c11a and dae2cd6 (C11), 736ef18 (C13), 01c2a70 (C12). Known findings and fixed entries: /verif/known_findings.json."
 m = {"version": 1, "setup_cmd": "./setup.sh",
  "hooks": {"guard": "verif", "enable": "no guarded code in /repo: harnesses and replay drivers enter builds through go/packages overlays and go test -overlay", "baseline_off_cmd": "cd /repo && GOFLAGS=-mod=mod GOPROXY=off go test -vet=off -count=1 -timeout 25m ./...", "source_commits": [], "add_only": True},
  "engines": [{"name": "symgo", "path": "/verif/symgo", "serves_properties": sorted(claimed), "kind_free_text": "own go/ssa symbolic executor (forking by re-execution) emitting SMT-LIB2 to z3 5.1.0 / z3 4.8.12 / cvc5"}],
